@@ -69,6 +69,9 @@ func buildProperty(ww *conversionVisitor, node *sourcewalk.PropertyNode) (*descr
 
 		itemDesc.Number = gl.Ptr(int32(2))
 		itemDesc.Name = gl.Ptr("value")
+		if itemDesc.Options != nil && proto.HasExtension(itemDesc.Options, validate.E_Field) {
+			ww.file.ensureImport(bufValidateImport)
+		}
 
 		entryName := mapName(protoFieldName)
 
@@ -143,6 +146,11 @@ func buildProperty(ww *conversionVisitor, node *sourcewalk.PropertyNode) (*descr
 		if err != nil {
 			return nil, err
 		}
+	}
+
+	// whichever branch attached validation rules, the file must import their definition
+	if fieldDesc.Options != nil && proto.HasExtension(fieldDesc.Options, validate.E_Field) {
+		ww.file.ensureImport(bufValidateImport)
 	}
 
 	required := node.Schema.Required
